@@ -293,6 +293,10 @@ func (matrix *DenseReal32Matrix) AsVector() Vector {
   return matrix.AsDenseReal32Vector()
 }
 func (matrix *DenseReal32Matrix) storageLocation() uintptr {
+  if len(matrix.values) == 0 {
+    // matrices without elements have no storage to share
+    return uintptr(unsafe.Pointer(matrix))
+  }
   return uintptr(unsafe.Pointer(&matrix.values[0]))
 }
 /* const interface
